@@ -25,6 +25,7 @@ from . import common
 F = Fraction
 sys.set_int_max_str_digits(0)  # exact model outputs can have 1e5 digits
 RTOL = 1e-9
+MKINDS = ["none", "diag", "dense", "scaled"]
 ATOL = 1e-11
 
 
@@ -75,6 +76,8 @@ def target_funcs(t):
 def rand_metric(rng, n, kind):
     if kind == "none":
         return None
+    if kind == "scaled":  # implicitly sized positive scaled identity
+        return {"scaled": 2.0 ** int(rng.integers(-2, 3)) if rng.random() < 0.5 else dy(rng, 0.25, 3.0, 4)}
     if kind == "diag":
         return np.array([2.0 ** int(rng.integers(-2, 3)) for _ in range(n)]) if rng.random() < 0.5 else dyvec(rng, n, 0.25, 3.0, 4)
     return rand_spd(rng, n, 4)
@@ -83,6 +86,8 @@ def rand_metric(rng, n, kind):
 def metric_array(m, n):
     if m is None:
         return np.eye(n)
+    if isinstance(m, dict):
+        return m["scaled"] * np.eye(n)
     return np.diag(m) if m.ndim == 1 else m
 
 
@@ -144,7 +149,13 @@ def vec_exact(impl, model):
 def make_system(mici, kind, target, metric):
     nld, grad = target_funcs(target)
     cls = mici.systems.EuclideanMetricSystem if kind == "euc" else mici.systems.GaussianEuclideanMetricSystem
-    return cls(nld, grad_neg_log_dens=grad, metric=metric)
+    return cls(nld, grad_neg_log_dens=grad, metric=mici_metric(mici, metric))
+
+
+def mici_metric(mici, metric):
+    if isinstance(metric, dict):
+        return mici.matrices.PositiveScaledIdentityMatrix(metric["scaled"])
+    return metric
 
 
 def make_integrator(mici, system, spec, eps):
@@ -227,7 +238,7 @@ def gauss_data(system, n):
 
 def metric_array_of(M, n):
     if M.shape[0] is None:
-        return (M @ np.eye(n)) if hasattr(M, "__matmul__") else np.eye(n)
+        return np.asarray(M @ np.eye(n), dtype=float)
     return np.asarray(M.array, dtype=float)
 
 
@@ -330,7 +341,7 @@ def step_cases(ctx, rng, count, eps_list=None, tag="steps"):
         if tkind == "quad" and rng.random() < 0.5:
             k = int(rng.integers(1, 9))
         target = rand_target(rng, n, tkind)
-        mkind = ["none", "diag", "dense"][int(rng.integers(3))]
+        mkind = MKINDS[int(rng.integers(len(MKINDS)))]
         metric = rand_metric(rng, n, mkind)
         d = int(rng.choice([1, -1]))
         q = dyvec(rng, n, -1.0, 1.0, 16)
@@ -429,13 +440,13 @@ def flow_cases(ctx, rng, count):
         n = int(rng.integers(1, 6))
         tkind = ["quad", "cubic", "quartic"][int(rng.integers(3))]
         target = rand_target(rng, n, tkind)
-        mkind = ["none", "diag", "dense"][i % 3]
+        mkind = MKINDS[i % len(MKINDS)]
         metric = rand_metric(rng, n, mkind)
         t = times[int(rng.integers(len(times)))] if rng.random() < 0.8 else dy(rng, -40, 40, 16)
         q = dyvec(rng, n, -2.0, 2.0, 16)
         p = dyvec(rng, n, -2.0, 2.0, 16)
         base = {"target": _jsonable(target), "metric_kind": mkind,
-                "metric": None if metric is None else metric.tolist(), "t": t, "q": q.tolist(), "p": p.tolist()}
+                "metric": metric.tolist() if isinstance(metric, np.ndarray) else metric, "t": t, "q": q.tolist(), "p": p.tolist()}
         Marr = metric_array(metric, n)
         N = exact_inverse(Marr)
         nld, grad = target_funcs(target)
@@ -462,6 +473,11 @@ def flow_cases(ctx, rng, count):
         checks.append(("h2", "gauss", dict(base, flow="h2_flow", sys="gauss"), target, metric, t, q, p, None))
         # --- dh2_flow_dmom of the constrained variants (any constraint: the blocks do not depend on it)
         delta = dyvec(rng, n, -1.0, 1.0, 16)
+        if t == 0.0:
+            # dt * metric.inv is not defined for dt = 0 (zero scalar multiples of matrices are rejected);
+            # only reachable with step_size = 0
+            ctx.count("flow:dmom_t0_skipped")
+            continue
         reqs.append(f"driftdmom {mstr(N)} {common.fstr(t)} {common.vstr(delta)}")
         checks.append(("dmom", "ceuc", dict(base, flow="dh2_flow_dmom", sys="ceuc", delta=delta.tolist()), target, metric, t, q, p, delta))
         reqs.append(f"harmdmom {mstr(Q)} {common.vstr(omega)} {common.vstr(c)} {common.vstr(s)} {common.vstr(delta)}")
@@ -479,10 +495,10 @@ def flow_cases(ctx, rng, count):
                 jac = lambda x: 2 * x[None, :]  # noqa: E731
                 if kind == "ceuc":
                     sysc = mici.systems.DenseConstrainedEuclideanMetricSystem(
-                        nld, constr, metric=metric, grad_neg_log_dens=grad, jacob_constr=jac)
+                        nld, constr, metric=mici_metric(mici, metric), grad_neg_log_dens=grad, jacob_constr=jac)
                 else:
                     sysc = mici.systems.GaussianDenseConstrainedEuclideanMetricSystem(
-                        nld, constr, metric=metric, grad_neg_log_dens=grad, jacob_constr=jac,
+                        nld, constr, metric=mici_metric(mici, metric), grad_neg_log_dens=grad, jacob_constr=jac,
                         mhp_constr=lambda x: (lambda m: np.zeros_like(x)))
                 st = ChainState(pos=q.copy(), mom=p.copy(), dir=1)
                 dq, dp = sysc.dh2_flow_dmom(st, t)
@@ -554,7 +570,7 @@ def implicit_cases(ctx, rng, count, tag="implicit"):
         target = rand_target(rng, n, tkind)
         z = np.zeros((n, n))
         if mode == "euclid":
-            metric = rand_metric(rng, n, ["none", "diag", "dense"][int(rng.integers(3))])
+            metric = rand_metric(rng, n, MKINDS[int(rng.integers(len(MKINDS)))])
             N = np.array([[float(x) for x in r] for r in exact_inverse(metric_array(metric, n))])
             Sqq, Sqp, Spp = z, z, None
         else:
@@ -631,3 +647,108 @@ def implicit_cases(ctx, rng, count, tag="implicit"):
                     f"{leg} state after {c['k']} step(s) differs: impl pos {state[0].tolist()} mom {state[1].tolist()} "
                     f"model pos {[float(x) for x in mq]} mom {[float(x) for x in mp]}", case)
                 break
+
+
+# --------------------------------------------------------------------------------------
+# C03: propagated Jacobian of the model vs finite-difference Jacobian of the real step
+
+
+def parse_mat(s):
+    s = s.strip()
+    assert s.startswith("[[") and s.endswith("]]"), s[:40]
+    return [common.parse_vec("[" + r + "]") for r in s[2:-2].split("],[")]
+
+
+def jacobian_cases(ctx, rng, count):
+    import mici
+    from mici.states import ChainState
+
+    cases = []
+    for _ in range(count):
+        n = int(rng.integers(1, 4))
+        syskind = "euc" if rng.random() < 0.6 else "gauss"
+        spec = rand_integrator(rng)
+        kicks = n_kicks(spec)
+        k = int(rng.integers(1, 3))
+        eps = [0.5, 0.25, 0.125, 0.3][int(rng.integers(4))]
+        coarse = syskind == "gauss" or spec["kind"].startswith("bcss") or common.frac(eps).denominator > 64
+        b0 = 64 if coarse else 12
+        total = kicks * k
+        tk = ["quad"] + (["quartic"] if b0 * 3**total <= 1e5 else []) + (["cubic"] if b0 * 2**total <= 1e5 else [])
+        tkind = tk[int(rng.integers(len(tk)))] if len(tk) == 1 or rng.random() < 0.9 else "quad"
+        if len(tk) > 1 and tkind == "quad":
+            tkind = tk[1]
+        target = rand_target(rng, n, tkind)
+        mkind = MKINDS[int(rng.integers(len(MKINDS)))]
+        cases.append({"sys": syskind, "integrator": spec, "k": k, "target": target, "metric_kind": mkind,
+                      "metric": rand_metric(rng, n, mkind), "eps": eps, "dir": int(rng.choice([1, -1])),
+                      "q": dyvec(rng, n, -1.0, 1.0, 16), "p": dyvec(rng, n, -1.0, 1.0, 16)})
+    reqs, live = [], []
+    for c in cases:
+        n = len(c["q"])
+        try:
+            system = make_system(mici, c["sys"], c["target"], c["metric"])
+            integ = make_integrator(mici, system, c["integrator"], c["eps"])
+            free, init = model_free(c["integrator"])
+            tail = f"{common.fstr(c['eps'])} {c['dir']}/1 {c['k']} {common.vstr(c['q'])} {common.vstr(c['p'])}"
+            leap = c["integrator"]["kind"] == "leapfrog"
+            if c["sys"] == "euc":
+                N = exact_inverse(metric_array(c["metric"], n))
+                req = (f"jleap {tstr(c['target'])} {mstr(N)} {tail}" if leap
+                       else f"jeuc {tstr(c['target'])} {mstr(N)} {common.vstr(free)} {int(init)} {tail}")
+            else:
+                Q, omega, ok = gauss_data(system, n)
+                times = [t for t in h2_times(integ, c["integrator"], c["eps"], c["dir"])]
+                table, ok2 = trig_table(omega, times)
+                if not (ok and ok2):
+                    ctx.disagreement("implementation's eigen/trig data violate their defining equations", _jsonable(c))
+                    continue
+                head = f"{tstr(c['target'])} {mstr(Q)} {common.vstr(omega)} {table}"
+                req = f"jgleap {head} {tail}" if leap else f"jgauss {head} {common.vstr(free)} {int(init)} {tail}"
+        except Exception as e:  # noqa: BLE001
+            ctx.disagreement(f"constructing system/integrator raised {type(e).__name__}: {e}", _jsonable(c))
+            continue
+        reqs.append(req)
+        live.append((c, integ))
+    res = common.run_driver("C03", reqs)
+
+    def step_map(integ, z, d, k):
+        n = len(z) // 2
+        s = ChainState(pos=z[:n].copy(), mom=z[n:].copy(), dir=d)
+        for _ in range(k):
+            s = integ.step(s)
+        return np.concatenate([s.pos, s.mom])
+
+    for (c, integ), line in zip(live, res, strict=True):
+        case = _jsonable(c)
+        if line == "bad-op":
+            raise common.MachineryError(f"driver rejected request for {case}")
+        toks = line.split(" ")
+        mD = np.array([[float(x) for x in row] for row in parse_mat(toks[2])])
+        sp = toks[3]
+        n = len(c["q"])
+        z0 = np.concatenate([c["q"], c["p"]])
+        try:
+            h = 2.0**-14
+            cols = []
+            for j in range(2 * n):
+                e = np.zeros(2 * n)
+                e[j] = h
+                # five-point stencil
+                cols.append((-step_map(integ, z0 + 2 * e, c["dir"], c["k"]) + 8 * step_map(integ, z0 + e, c["dir"], c["k"])
+                             - 8 * step_map(integ, z0 - e, c["dir"], c["k"]) + step_map(integ, z0 - 2 * e, c["dir"], c["k"])) / (12 * h))
+            J = np.array(cols).T
+        except Exception as e:  # noqa: BLE001
+            ctx.disagreement(f"integrator.step raised {type(e).__name__}: {e}", case)
+            continue
+        ctx.case(case, nontrivial=c["target"]["kind"] != "quad")
+        ctx.count(f"jac:{c['sys']}:{c['integrator']['kind']}:target={c['target']['kind']}")
+        if c["sys"] == "euc":
+            # exact data: the model's Jacobian must be EXACTLY symplectic over the rationals
+            ctx.count(f"jac:model_exactly_symplectic={sp}")
+            if sp != "sp=1":
+                ctx.disagreement("model Jacobian of a Euclidean composition step is not exactly symplectic", case)
+        scale = max(1.0, float(np.abs(mD).max()))
+        err = float(np.abs(J - mD).max())
+        if not np.isfinite(err) or err > 1e-6 * scale:
+            ctx.disagreement(f"finite-difference Jacobian of the real step differs from the model's propagated Jacobian by {err:.2e} (scale {scale:.2e})", case)
